@@ -85,7 +85,7 @@ class CheckC16(core.Check):
                     lab = c.op("st_write", w, n=n, pay="gen:%d:tw%d.%d" % (7 + n, d, n), buf=BIG, out="s%d_%d" % (d, n))
                     seq.append((lab, "w", d, n, "tw%d.%d" % (d, n), 7 + n))
                     # payload buffers: exactly the payload length (ring's copy path) or large (in-place path)
-                    lab = c.op("st_read", r, n=n, msg="$tw%d_%d" % (d, n), buf=rnd.choice([BIG, 7 + n, 7 + n, 7 + n + 16]))
+                    lab = c.op("st_read", r, n=n, msg="$tw%d_%d" % (d, n), buf=rnd.choice([BIG, 7 + n, 7 + n, 7 + n + rnd.randrange(1, 16), 7 + n + 16]))
                     seq.append((lab, "r", d, n, "tw%d.%d" % (d, n), 7 + n))
         lens = [0, 1, 100] if small else [0, 1, 16, 255, 4096, 65519]
         for n in (NONCES if not small else NONCES[:4]) + [rnd.getrandbits(64) % MAXN for _ in range(2)]:
@@ -95,7 +95,7 @@ class CheckC16(core.Check):
                 sd = "x%d.%d" % (d, n)
                 lab = c.op("st_write", w, n=n, pay="gen:%d:%s" % (ln, sd), buf=BIG, out="x%d_%d" % (d, n))
                 seq.append((lab, "w", d, n, sd, ln))
-                lab = c.op("st_read", r, n=n, msg="$x%d_%d" % (d, n), buf=rnd.choice([BIG, ln, ln + 16]))
+                lab = c.op("st_read", r, n=n, msg="$x%d_%d" % (d, n), buf=rnd.choice([BIG, ln, ln + rnd.randrange(1, 16), ln + 16]))
                 seq.append((lab, "r", d, n, sd, ln))
         # pool of (direction, nonce, length, seed) combinations written sequentially twice (repetition must give the
         # same bytes); the concurrent writers below draw from this pool, so each has a sequential reference value
